@@ -1,13 +1,12 @@
 //@ unit bigdec_compare
 //@ props C09
 //@ kind W
-//@ def quick NB=5
-//@ def thorough NB=7
-//@ cbmc all --unwind 10 --unwinding-assertions
+//@ def quick NB=6
+//@ def thorough NB=9
+//@ cbmc all --unwind 12 --unwinding-assertions
 //@ entry h_bigdec_compare
-//@ note W: complete for every pair of NUL-terminated XMLCh strings of length <= NB (quick 5, thorough 7) in the decimal lexical space; both are parsed by the real parseDecimal and compared by the real toCompare (= compareValues); loops fully unwound, unwinding assertions on
-//@ note obligation (C09 "equal values compare equal whatever their lexical form; antisymmetric"): toCompare is the numeric order of the two decimal values. Reference order from positional notation: compare signs; then the integer parts padded on the left with zeros digit by digit; then the fraction parts padded on the right with zeros digit by digit. In particular every lexical zero ("0", "0.0", ".0", "-0.0", "+00.000") compares equal to every other.
-//@ note strings outside the lexical space are excluded by assumption here (bigdec_parse decides acceptance); XMLChar1_0::isWhitespace is replaced by the XML 1.0 production S
+//@ note W: complete for every pair / triple of decimal values in the normal form parseDecimal produces (sign, digit string = integer digits without leading zeros followed by fraction digits without trailing zeros, totalDigits, scale) with up to NB digits (quick 6, thorough 9); unit bigdec_parse proves that parseDecimal maps every lexical form to exactly this normal form (every lexical zero -- "0", "0.0", ".0", "-0.0", "+00.000" -- to sign 0 with no digits), so the two units together give: equal values compare equal whatever their lexical form. toCompare (= compareValues) is the real code; loops fully unwound, unwinding assertions on
+//@ note obligation (C09 "equal values compare equal whatever their lexical form; antisymmetric"): toCompare is the numeric order of the two decimal values. Reference order from positional notation: compare signs; then the integer parts padded on the left with zeros digit by digit; then the fraction parts padded on the right with zeros digit by digit. Also antisymmetry, transitivity on triples, substitutivity of equals.
 #define VERIF_DEFINE_GHOSTS
 #include "verif_prelude.h"
 #include "xsd_lexical.h"
@@ -21,10 +20,6 @@ params const XMLCh* const src
 params const XMLCh* const str1
 sub int\(\*psz1\) - int\(\*psz2\) => (int)(*psz1) - (int)(*psz2)
 @*/
-/*@extract src/xercesc/util/XMLBigDecimal.cpp XMLBigDecimal::parseDecimal
-pick 1
-sub XMLChar1_0::isWhitespace => SPEC_IS_XMLWS
-@*/
 /*@extract src/xercesc/util/XMLBigDecimal.cpp XMLBigDecimal::toCompare
 selfparam XMLBigDecimal
 sub this-> => self->
@@ -34,7 +29,7 @@ sub getScale\(\) => fScale
 sub getValue\(\) => fIntVal
 @*/
 
-struct { XMLCh a[NB + 1]; } IN1, IN2, OUT1, OUT2;
+struct { XMLCh a[NB + 1]; } V1, V2, V3;
 
 /* order of two digit strings as numbers: integer parts left-padded, fraction parts right-padded with zeros */
 static int spec_mag_order(const uint16_t *ip1, size_t ni1, const uint16_t *fp1, size_t nf1,
@@ -52,33 +47,40 @@ static int spec_mag_order(const uint16_t *ip1, size_t ni1, const uint16_t *fp1, 
   }
   return 0;
 }
+static int spec_order(int sg1, const uint16_t *v1, size_t ni1, size_t nf1, int sg2, const uint16_t *v2, size_t ni2, size_t nf2)
+{
+  int mag = spec_mag_order(v1, ni1, v1 + ni1, nf1, v2, ni2, v2 + ni2, nf2);
+  return (sg1 != sg2) ? (sg1 < sg2 ? -1 : 1) : (sg1 == 0 ? 0 : (sg1 > 0 ? mag : -mag));
+}
+
+/* the normal form parseDecimal produces (proved in bigdec_parse): digits only, integer part without leading zero,
+   fraction without trailing zero, sign 0 iff no digit at all */
+#define NORMAL(v, ni, nf, sg) ((ni) + (nf) <= NB && (v)[(ni) + (nf)] == 0 && ((sg) == -1 || (sg) == 0 || (sg) == 1) && \
+   (((ni) + (nf) == 0) == ((sg) == 0)) && ((ni) == 0 || (v)[0] != 0x30) && ((nf) == 0 || (v)[(ni) + (nf) - 1] != 0x30))
 
 void h_bigdec_compare(void)
 {
-  XMLSize_t n1, n2;
-  struct XMLBigDecimal D1, D2;
-  int t1, s1, t2, s2;
-  VERIF_INPUT(IN1); VERIF_INPUT(IN2); VERIF_INPUT(OUT1); VERIF_INPUT(OUT2); VERIF_INPUT(n1); VERIF_INPUT(n2);
-  VERIF_ASSUME(n1 <= NB && n2 <= NB);
-  XMLCh *x1 = IN1.a + (NB - n1), *x2 = IN2.a + (NB - n2);
-  VERIF_ASSUME(x1[n1] == 0 && x2[n2] == 0);
-  for (XMLSize_t i = 0; i < NB; i++) VERIF_ASSUME((i >= n1 || x1[i] != 0) && (i >= n2 || x2[i] != 0));
-  int neg1, neg2; uint16_t ip1[NB + 1], fp1[NB + 1], ip2[NB + 1], fp2[NB + 1]; size_t ni1, nf1, ni2, nf2;
-  VERIF_ASSUME(spec_parse_decimal(x1, n1, 1, &neg1, ip1, &ni1, fp1, &nf1));
-  VERIF_ASSUME(spec_parse_decimal(x2, n2, 1, &neg2, ip2, &ni2, fp2, &nf2));
+  XMLSize_t ni1, nf1, ni2, nf2, ni3, nf3;
+  struct XMLBigDecimal D1, D2, D3;
+  VERIF_INPUT(V1); VERIF_INPUT(V2); VERIF_INPUT(V3); VERIF_INPUT(D1); VERIF_INPUT(D2); VERIF_INPUT(D3);
+  VERIF_INPUT(ni1); VERIF_INPUT(nf1); VERIF_INPUT(ni2); VERIF_INPUT(nf2); VERIF_INPUT(ni3); VERIF_INPUT(nf3);
+  VERIF_ASSUME(ni1 <= NB && nf1 <= NB && ni2 <= NB && nf2 <= NB && ni3 <= NB && nf3 <= NB && ni1 + nf1 <= NB && ni2 + nf2 <= NB && ni3 + nf3 <= NB);
+  XMLCh *v1 = V1.a + (NB - (ni1 + nf1)), *v2 = V2.a + (NB - (ni2 + nf2)), *v3 = V3.a + (NB - (ni3 + nf3));
+  VERIF_ASSUME(NORMAL(v1, ni1, nf1, D1.fSign) && NORMAL(v2, ni2, nf2, D2.fSign) && NORMAL(v3, ni3, nf3, D3.fSign));
+  for (XMLSize_t i = 0; i < NB; i++)
+    VERIF_ASSUME((i >= ni1 + nf1 || SPEC_IS_DIGIT(v1[i])) && (i >= ni2 + nf2 || SPEC_IS_DIGIT(v2[i])) && (i >= ni3 + nf3 || SPEC_IS_DIGIT(v3[i])));
+  D1.fIntVal = v1; D1.fTotalDigits = (unsigned)(ni1 + nf1); D1.fScale = (unsigned)nf1;
+  D2.fIntVal = v2; D2.fTotalDigits = (unsigned)(ni2 + nf2); D2.fScale = (unsigned)nf2;
+  D3.fIntVal = v3; D3.fTotalDigits = (unsigned)(ni3 + nf3); D3.fScale = (unsigned)nf3;
   verif_thrown = 0;
-  D1.fIntVal = OUT1.a + (NB - n1); D2.fIntVal = OUT2.a + (NB - n2);
-  XMLBigDecimal_parseDecimal(x1, D1.fIntVal, &D1.fSign, &t1, &s1, 0);
-  XMLBigDecimal_parseDecimal(x2, D2.fIntVal, &D2.fSign, &t2, &s2, 0);
-  D1.fTotalDigits = (unsigned)t1; D1.fScale = (unsigned)s1; D2.fTotalDigits = (unsigned)t2; D2.fScale = (unsigned)s2;
-  VERIF_ASSUME(!verif_thrown);
   int c12 = XMLBigDecimal_toCompare(&D1, &D2);
   int c21 = XMLBigDecimal_toCompare(&D2, &D1);
+  int c23 = XMLBigDecimal_toCompare(&D2, &D3);
+  int c13 = XMLBigDecimal_toCompare(&D1, &D3);
   VERIF_CANARY("after call");
-  int sg1 = (ni1 == 0 && nf1 == 0) ? 0 : (neg1 ? -1 : 1), sg2 = (ni2 == 0 && nf2 == 0) ? 0 : (neg2 ? -1 : 1);
-  int mag = spec_mag_order(ip1, ni1, fp1, nf1, ip2, ni2, fp2, nf2);
-  int ref = (sg1 != sg2) ? (sg1 < sg2 ? -1 : 1) : (sg1 == 0 ? 0 : (sg1 > 0 ? mag : -mag));
-  __CPROVER_assert(c12 == ref, "C09: XMLBigDecimal::toCompare = numeric order of the decimal values, whatever their lexical form");
+  __CPROVER_assert(c12 == spec_order(D1.fSign, v1, ni1, nf1, D2.fSign, v2, ni2, nf2), "C09: XMLBigDecimal::toCompare = numeric order of the decimal values");
   __CPROVER_assert(c21 == -c12, "C09: XMLBigDecimal::toCompare is antisymmetric");
-  __CPROVER_assert(!(sg1 == 0 && sg2 == 0) || c12 == 0, "C09: every lexical zero compares equal to every other");
+  __CPROVER_assert(!(c12 < 0 && c23 < 0) || c13 < 0, "C09: XMLBigDecimal::toCompare is transitive");
+  __CPROVER_assert(c12 != 0 || c13 == c23, "C09: XMLBigDecimal::toCompare: equal values are interchangeable");
+  __CPROVER_assert(!(D1.fSign == 0 && D2.fSign == 0) || c12 == 0, "C09: every zero compares equal to every other");
 }
